@@ -26,6 +26,7 @@ import (
 	"os"
 	"os/exec"
 	"path/filepath"
+	"regexp"
 	"sort"
 	"strings"
 	"sync"
@@ -176,7 +177,7 @@ func (k *RunKit) build(p *RunPkg) {
 	}
 	_ = os.WriteFile(filepath.Join(p.Dir, "prog.go"), []byte(prog), 0o644)
 	bin := filepath.Join(p.Dir, "prog.bin")
-	cmd := exec.Command("go", "build", "-o", bin, ".")
+	cmd := exec.Command("go", "build", "-gcflags=-e", "-o", bin, ".")
 	cmd.Dir = p.Dir
 	cmd.Env = append(os.Environ(), "GOFLAGS=-mod=mod", "GOPROXY=off", "GOSUMDB=off", "GOTOOLCHAIN=local")
 	out, err := cmd.CombinedOutput()
@@ -375,7 +376,7 @@ func renderProgram(f *ast.File, fset *token.FileSet, p *RunPkg) (string, error) 
 	case "iris":
 		w("\t\"github.com/kataras/iris/v12\"\n")
 	}
-	w(")\n\n")
+	w("//EXTRA-IMPORTS\n)\n\n")
 	w("var _ = bytes.NewReader\nvar _ = context.Background\nvar _ = httptest.NewRecorder\nvar _ = sort.Strings\nvar _ = strings.Join\nvar _ = io.ReadAll\nvar _ = reflect.TypeOf\nvar _ http.Handler\n")
 	b.WriteString(progCommon)
 
@@ -402,7 +403,7 @@ func renderProgram(f *ast.File, fset *token.FileSet, p *RunPkg) (string, error) 
 
 	if fw == "" {
 		w("func serve(req wireReq, opt serveOpt) map[string]interface{} { return map[string]interface{}{\"err\": \"no server in this package\"} }\n")
-		return b.String(), nil
+		return addExtraImports(b.String(), f), nil
 	}
 
 	// ctx reader
@@ -480,7 +481,30 @@ func renderProgram(f *ast.File, fset *token.FileSet, p *RunPkg) (string, error) 
 		b.WriteString(progStrict)
 	}
 	b.WriteString(progServe[fwFamily(fw, p.Strict)])
-	return b.String(), nil
+	return addExtraImports(b.String(), f), nil
+}
+
+// addExtraImports imports into prog.go the packages of gen.go that the stub's signatures mention
+// (openapi_types, time, externalRefN, ...).
+func addExtraImports(prog string, f *ast.File) string {
+	var extra strings.Builder
+	head := prog[:strings.Index(prog, "//EXTRA-IMPORTS")]
+	for _, im := range f.Imports {
+		path := strings.Trim(im.Path.Value, "\"")
+		name := path[strings.LastIndex(path, "/")+1:]
+		alias := ""
+		if im.Name != nil {
+			name = im.Name.Name
+			alias = name + " "
+		}
+		if name == "_" || name == "." || strings.Contains(head, "\""+path+"\"") {
+			continue
+		}
+		if regexp.MustCompile(`[^A-Za-z0-9_.]`+regexp.QuoteMeta(name)+`\.[A-Z]`).MatchString(prog) {
+			fmt.Fprintf(&extra, "\t%s%q\n", alias, path)
+		}
+	}
+	return strings.Replace(prog, "//EXTRA-IMPORTS\n", extra.String(), 1)
 }
 
 func fwFamily(fw string, strict bool) string {
@@ -493,3 +517,64 @@ func fwFamily(fw string, strict bool) string {
 
 // openapi3 import keeper
 var _ = openapi3.NewLoader
+
+// ---------- compile failures attributed to operations ----------
+
+type compileFail struct {
+	Func string // enclosing top-level function / method / type of the error position in gen.go
+	Msg  string // error message without position
+}
+
+// CompileFailures maps the `go build` errors of a package to the generated declarations they are in.
+func (p *RunPkg) CompileFailures() []compileFail {
+	if p.BuildErr == "" {
+		return nil
+	}
+	f, fset, err := parseGo(p.Src)
+	var out []compileFail
+	seen := map[string]bool{}
+	for _, line := range strings.Split(p.BuildErr, "\n") {
+		line = strings.TrimSpace(line)
+		if !strings.HasPrefix(line, "./gen.go:") && !strings.HasPrefix(line, "gen.go:") {
+			if strings.HasPrefix(line, "./prog.go:") {
+				out = append(out, compileFail{Func: "prog.go", Msg: line})
+			}
+			continue
+		}
+		rest := line[strings.Index(line, "gen.go:")+len("gen.go:"):]
+		parts := strings.SplitN(rest, ":", 3)
+		if len(parts) < 3 {
+			continue
+		}
+		ln := 0
+		fmt.Sscanf(parts[0], "%d", &ln)
+		msg := strings.TrimSpace(parts[2])
+		fn := "?"
+		if err == nil {
+			for _, d := range f.Decls {
+				if fset.Position(d.Pos()).Line <= ln && ln <= fset.Position(d.End()).Line {
+					switch dd := d.(type) {
+					case *ast.FuncDecl:
+						fn = dd.Name.Name
+					case *ast.GenDecl:
+						for _, sp := range dd.Specs {
+							if ts, ok := sp.(*ast.TypeSpec); ok && fset.Position(ts.Pos()).Line <= ln && ln <= fset.Position(ts.End()).Line {
+								fn = ts.Name.Name
+							}
+						}
+					}
+				}
+			}
+		}
+		key := fn + "|" + msg
+		if !seen[key] {
+			seen[key] = true
+			out = append(out, compileFail{Func: fn, Msg: msg})
+		}
+	}
+	return out
+}
+
+func (p *RunPkg) reset() {
+	p.Src, p.GenErr, p.BuildErr, p.Bin = "", nil, "", ""
+}
